@@ -160,7 +160,16 @@ def add_linear_scale(rng, segs):
                 if rng.random() < 0.4:
                     # a sensor scaling (they compute with in-place NumPy operations) reading the raw data
                     import c13_lib
-                    kind = rng.choice(["Strain", "RTD", "Thermistor"])
+                    kind = rng.choice(["Strain", "RTD", "Thermistor", "Thermocouple"])
+                    if kind == "Thermocouple":
+                        x.props += [G.Prop(b"NI_Scale[0]_Scale_Type", G.T_STRING, b"Thermocouple"),
+                                    G.Prop(b"NI_Scale[0]_Thermocouple_Thermocouple_Type", 7,
+                                           struct.pack("<L", rng.choice([10073, 10072, 10085]))),
+                                    G.Prop(b"NI_Scale[0]_Thermocouple_Scaling_Direction", 7,
+                                           struct.pack("<L", rng.choice([0, 0, 1]))),
+                                    G.Prop(b"NI_Scale[0]_Thermocouple_Input_Source", 7, struct.pack("<L", 0xFFFFFFFF)),
+                                    G.Prop(b"NI_Number_Of_Scales", 7, struct.pack("<L", 1))]
+                        continue
                     x.props += [G.Prop(b"NI_Scale[0]_Scale_Type", G.T_STRING, kind.encode()),
                                 G.Prop(("NI_Scale[0]_%s_Input_Source" % kind).encode(), 7, struct.pack("<L", 0xFFFFFFFF)),
                                 G.Prop(b"NI_Number_Of_Scales", 7, struct.pack("<L", 1))]
